@@ -692,7 +692,10 @@ func mergeScrapeStatus(a, b map[uint64]*target.ScrapeStatus) map[uint64]*target.
 	for k, v := range b {
 		old := a[k]
 		if old == nil {
-			a[k] = v
+			// keep a copy, v may be the explorer's own status object (or a shard's),
+			// merging the status of another replica into it must not change it
+			c := *v
+			a[k] = &c
 			continue
 		}
 
